@@ -146,10 +146,10 @@ func TestVerifC10(t *testing.T) {
 	rng := R.Rand("c10")
 	verifSetLogging(true)
 	defer verifSetLogging(false)
-	nreq := vr.Pick(2000, 20000)
+	nreq := vr.Pick(2000, 8000)
 	var cfgs []c10Cfg
 	modes := []string{"local", "", "remote-healthy", "remote-unreachable", "remote-stalled"}
-	ncfg := vr.Pick(12, 60)
+	ncfg := vr.Pick(12, 40)
 	for i := 0; i < ncfg; i++ {
 		m := modes[i%len(modes)]
 		if i < 4 {
